@@ -31,6 +31,21 @@ func (vc *VC) bstrOf(env Env, s string) string {
 	return app("bs_", app("select", vc.cur(env, m.Name), app("s.arr", s)), app("s.off", s), app("s.len", s))
 }
 
+// byteMemIfDeclared: the byte memory, if some byte-string abstraction has been used in this VC (nil otherwise).
+func (vc *VC) byteMemIfDeclared() *SVar {
+	if !vc.declared["bs_"] {
+		return nil
+	}
+	return vc.byteMem()
+}
+
+// bsFrame: after a write to the window [lo,hi) of a byte row, the content identity bs_ of every window disjoint from
+// it is unchanged (frame axiom of the byte-string abstraction; triggered by bs_ terms over the new row only).
+func (vc *VC) bsFrame(n *Node, newRow, oldRow, lo, hi string) {
+	vc.declareFun("bs_", []string{"(Array Int Int)", "Int", "Int"}, "Int")
+	n.assume(fmt.Sprintf("(forall ((o Int) (l Int)) (! (=> (or (<= (+ o l) %s) (>= o %s)) (= (bs_ %s o l) (bs_ %s o l))) :pattern ((bs_ %s o l))))", lo, hi, newRow, oldRow, newRow))
+}
+
 func (vc *VC) bstrUse(n *Node, s string, env Env) string {
 	t := vc.bstrOf(env, s)
 	n.assume(sEq(app("blen_", t), app("s.len", s)))
@@ -166,6 +181,11 @@ func (vc *VC) modelAppend(fr *Frame, n *Node, call *ssa.CallCommon, res ssa.Valu
 		}
 		n.assume(sImp(inPlace, fmt.Sprintf("(forall ((j Int)) (! (=> (or (< j (+ (s.off %s) (s.len %s))) (>= j (+ (s.off %s) (s.len %s) %s))) (= (select %s j) (select %s j))) :pattern ((select %s j))))", s, s, s, s, tl, row, srow, row)))
 	}
+	if isByteSlice(call.Args[0].Type()) {
+		// in place: windows below the old length keep their content identity; reallocated: the prefix is a copy
+		n.assume(sImp(inPlace, fmt.Sprintf("(forall ((o Int) (l Int)) (! (=> (<= (+ o l) (+ (s.off %s) (s.len %s))) (= (bs_ %s o l) (bs_ %s o l))) :pattern ((bs_ %s o l))))", s, s, row, srow, row)))
+		n.assume(sImp(sNot(inPlace), fmt.Sprintf("(forall ((o Int) (l Int)) (! (=> (and (<= 0 o) (<= (+ o l) (s.len %s))) (= (bs_ %s o l) (bs_ %s (+ (s.off %s) o) l))) :pattern ((bs_ %s o l))))", s, row, srow, s, row)))
+	}
 	if isByteSlice(call.Args[0].Type()) && t != "" {
 		// abstract level: appending to an empty slice yields the argument's content
 		vc.declareFun("bs_", []string{"(Array Int Int)", "Int", "Int"}, "Int")
@@ -204,6 +224,9 @@ func (vc *VC) modelCopy(fr *Frame, n *Node, call *ssa.CallCommon, res ssa.Value,
 	if isByteSlice(call.Args[0].Type()) && srow != "" {
 		vc.declareFun("bs_", []string{"(Array Int Int)", "Int", "Int"}, "Int")
 		n.assume(sEq(app("bs_", row, app("s.off", d), cnt), app("bs_", srow, soff, cnt)))
+	}
+	if isByteSlice(call.Args[0].Type()) {
+		vc.bsFrame(n, row, drow, app("s.off", d), app("+", app("s.off", d), cnt))
 	}
 	if res != nil {
 		fr.regs[res] = cnt
@@ -263,7 +286,11 @@ func (vc *VC) typeTagNamed(s string) int {
 }
 
 func (vc *VC) unwrapFn() string {
-	vc.declareFun("unwrap_", []string{"Int"}, "Iface")
+	if !vc.declared["unwrap_"] {
+		vc.declareFun("unwrap_", []string{"Int"}, "Iface")
+		// the nil error wraps nothing (an ended %w chain stays ended)
+		vc.addAxiom("(= (unwrap_ 0) (mk-iface 0 0))")
+	}
 	return "unwrap_"
 }
 
@@ -546,16 +573,22 @@ func (vc *VC) libCall(fr *Frame, n *Node, callee *ssa.Function, call *ssa.CallCo
 		m := vc.byteMem()
 		old := vc.cur(n.env, m.Name)
 		row := app("select", old, app("s.arr", b))
+		// the base-256 digits of v as fresh bytes: v = sum digit_i * 256^i is linear, where (v div 256^i) mod 256 is not
+		var sum []string
 		for i := 0; i < nb; i++ {
 			sh := i
 			if big {
 				sh = nb - 1 - i
 			}
-			byteV := app("mod", app("div", v, bigInt{}.pow2(8*sh)), "256")
+			byteV := vc.fresh(fr.prefix+".digit", "Int")
+			n.assume(sAnd(app("<=", "0", byteV), app("<", byteV, "256")))
+			sum = append(sum, app("*", bigInt{}.pow2(8*sh), byteV))
 			row = app("store", row, app("+", app("s.off", b), fmt.Sprint(i)), byteV)
 		}
+		n.assume(sImp(sAnd(app("<=", "0", v), app("<", v, bigInt{}.pow2(8*nb))), sEq(v, app("+", sum...))))
 		nv := vc.bump(n.env, m.Name)
 		n.assume(sEq(nv, app("store", old, app("s.arr", b), row)))
+		vc.bsFrame(n, app("select", nv, app("s.arr", b)), app("select", old, app("s.arr", b)), app("s.off", b), app("+", app("s.off", b), fmt.Sprint(nb)))
 		return
 	case strings.HasPrefix(name, "(encoding/binary.littleEndian).Uint") || strings.HasPrefix(name, "(encoding/binary.bigEndian).Uint"):
 		nb := map[string]int{"Uint16": 2, "Uint32": 4, "Uint64": 8}[name[strings.LastIndex(name, ".")+1:]]
@@ -658,10 +691,19 @@ func (vc *VC) libCall(fr *Frame, n *Node, callee *ssa.Function, call *ssa.CallCo
 
 // errText: ghost needles for error-text classification (`strings.Contains(err.Error(), "corrupt")`).
 func (vc *VC) errText(n *Node, e string, format string, fr *Frame, call *ssa.CallCommon) {
-	vc.errFormats = append(vc.errFormats, errFmt{e, format})
+	ef := errFmt{term: e, format: format}
+	if len(call.Args) > 1 {
+		if elems, ok := vc.varargElems(fr, n, call.Args[1]); ok {
+			ef.args = elems
+		}
+	}
+	vc.errFormats = append(vc.errFormats, ef)
 }
 
-type errFmt struct{ term, format string }
+type errFmt struct {
+	term, format string
+	args         []string
+}
 
 func (vc *VC) needOrder() {
 	if vc.declared["bcmp_"] {
@@ -717,6 +759,12 @@ func (vc *VC) libContractCall(fr *Frame, n *Node, name string, callee *ssa.Funct
 	sc := &SpecCtx{vc: vc, fr: fr, node: n, env: n.env, old: pre, names: names}
 	fr.callOrd[name]++
 	ord := fr.callOrd[name]
+	fr.ghostArgs = map[string]Val{}
+	for k, v := range names {
+		fr.ghostArgs[k] = v
+	}
+	vc.ghostAt(fr, n, "before", name, ord)
+	defer func() { vc.ghostAt(fr, n, "after", name, ord, res) }()
 	j := 0
 	for _, c := range fc.Clauses {
 		if c.Kind != "requires" {
